@@ -33,6 +33,8 @@ P = {
          "names <=2 bytes symbolic; one operation per step from a constructed state"),
  "C14": ("CreateIndex/DropIndex/HasIndex/ListIndexes over field sets from {x, xy} (prefix pair) with sentinel errors, sibling index entries audited and still serving exact sorted/filtered results; index scans in presence of a sibling index whose name extends the field (index-level harness)",
          "dotted pairs (n, n.a) only through C18/C06 paths; <=2 documents"),
+ "C15": ("REDUCED: the REAL adapter code (store/bbolt, store/badger) executed over contract stubs of the bbolt/badger library surface: cursor contract for <=3 symbolic keys + an empty-valued key pending in the iterating write transaction, symbolic/before-first/after-last targets, both directions; and one operation script (create, index, insert, sorted/filtered reads, bulk update/delete/drop-index) giving identical results, counts and error classes on both adapters; counterexamples replay against real bbolt and real in-memory badger",
+         "behaviour of the real libraries beyond the stub contracts (listed in zzverif/libstub) is outside the claim; badger on-disk options are not distinguished"),
  "C16": ("connective truth tables / De Morgan / double negation for every tree of depth<=2 (3 thorough) over MatchFunc leaves with symbolic outcomes; each leaf operator vs the documented semantics with symbolic field values and literals; field references (direct and in lists); the same number as each of 12 Go numeric kinds through the database",
          "lists <=2; strings<=1 byte; Like patterns concrete"),
  "C17": ("Range.IsEmpty/Intersect soundness as implications over symbolic bounds/flags/values; IterateRange/Iterate on the reference store: exact in-range ids in (value,id) order, both directions, stop after k, sibling index present",
@@ -45,9 +47,7 @@ P = {
          "well-typed arguments in the bounded domains of the other harnesses; 'never blocks' = no nested write transaction and no transaction left open"),
 }
 
-NA = {
- "C15": "not yet built in this session: needs contract stubs of the bbolt/badger library surface below the real adapters; planned next (see DESIGN.md §6 C15)",
-}
+NA = {}
 
 checks = []
 for pid in sorted(P):
